@@ -576,6 +576,52 @@ def d6(repo: Repo) -> RuleResult:
             fd = Finding("D6", ps.rel, ps.node.lineno, ps.qual, "", "chunks of a direct enum field are ORed through the enum property: its getter constructs the enum from a partial value", witness="uint12 enum at offset 3", tag="py:set-byte:enum-proxy")
             fd.part = "py"
             res.bad(fd)
+    # OR-accumulated leaves must start from zero in a freshly constructed message
+    pf = m.cls("PyFormatter", "impls/py/formatter.py")
+    zero_ok = {"format_default_value_bool": {"'False'"}, "format_default_value_byte": {"'bp.byte(0)'", "'0'"}, "format_default_value_uint": {"'0'"}, "format_default_value_int": {"'0'"}}
+    for meth, accepted in zero_ok.items():
+        f0 = pf.methods.get(meth)
+        got = {src_of(r.value) for r in _rets(f0.node)} if f0 else set()
+        res.inst(part="py", where=f"PyFormatter.{meth}", default=sorted(got))
+        if not got or not got <= accepted:
+            fd = Finding("D6", pf.rel, f0.node.lineno if f0 else 0, f"PyFormatter.{meth}", str(sorted(got)), "the default of a field whose decoded chunks are ORed in is not zero: decode into a fresh message yields default | value", witness="decode(encode(v)) into a new message", tag=f"py:default:{meth}")
+            fd.part = "py-decode"
+            res.bad(fd)
+    fe = pf.methods.get("format_default_value_enum")
+    if fe is not None:
+        t2 = src_of(fe.node)
+        res.inst(part="py", where="PyFormatter.format_default_value_enum", default=[src_of(r.value) for r in _rets(fe.node)])
+        if "fields()[0]" in t2 and "value == 0" not in t2 and "(0)" not in t2:
+            fd = Finding("D6", pf.rel, fe.node.lineno, "PyFormatter.format_default_value_enum", short(t2, 160), "an enum field defaults to the enum's first declared member, which need not be 0, but bp_set_byte ORs the decoded chunks into the field: decoding into a freshly constructed message yields (first member | encoded value)", witness="enum Color : uint3 { COLOR_RED = 1; COLOR_GREEN = 2 }  message M { Color c = 1 }: M().decode(M(c=COLOR_GREEN).encode()) -> c is 3: ValueError '3 is not a valid Color'", tag="py:default:enum-nonzero")
+            fd.part = "py-decode"
+            res.bad(fd)
+    # array defaults: one freshly evaluated default per element (no shared mutable rows)
+    fa = pf.methods.get("format_default_value_array")
+    if fa is not None:
+        from .rules_a import type_domains
+
+        elem_dom = type_domains(repo)["ElemType"]
+        for r in _rets(fa.node):
+            shape = _fstring_shape(r.value) if isinstance(r.value, ast.JoinedStr) else src_of(r.value)
+            res.inst(part="py", where="PyFormatter.format_default_value_array", template=shape)
+            if "] *" in shape or "]*" in shape:
+                # which element classes reach this template?
+                reach = []
+                for c in elem_dom:
+                    ok = True
+                    for e, truth in facts_at(r, fa.node):
+                        if isinstance(e, ast.Call) and isinstance(e.func, ast.Name) and e.func.id == "isinstance" and src_of(e.args[0]) == "t.element_type":
+                            names = [x.id for x in ([e.args[1]] if isinstance(e.args[1], ast.Name) else getattr(e.args[1], "elts", [])) if isinstance(x, ast.Name)]
+                            hit = any(any(k.name == nme for k in m.mro(c)) for nme in names)
+                            if hit != truth:
+                                ok = False
+                    if ok:
+                        reach.append(c.name)
+                mutable = [x for x in reach if x in ("Message", "Alias", "Array")]
+                if mutable:
+                    fd = Finding("D6", pf.rel, r.lineno, "PyFormatter.format_default_value_array", shape, f"the array default repeats ONE element object `[x] * n` for element kinds {mutable}, whose defaults are mutable (an alias may name an array): all rows are the same object and decoded chunks are ORed into it", witness="type Row = uint8[2]; message M { Row[2] rows = 1 }: after decode both rows are equal, re-encoding differs", tag="py:default:array-shared")
+                    fd.part = "py-decode"
+                    res.bad(fd)
     gs = m.func("impls/go/renderer.py", "BlockMessageMethodBpSetByteItem.render_single")
     t = src_of(gs.node)
     res.inst(part="go", where=gs.qual, templates=_fstrings(gs.node))
